@@ -98,6 +98,7 @@ from .errors import (
     RefFormatError,
     UnexpectedCommandError,
 )
+from .file import FileLocked
 from .object_filters import (
     CombineFilter,
     FilterSpec,
@@ -1588,12 +1589,16 @@ class ReceivePackHandler(PackHandler):
                         try:
                             if not self.repo.refs.remove_if_equals(ref, oldsha):
                                 ref_status = b"stale info"
+                        except FileLocked:
+                            ref_status = b"failed to lock"
                         except all_exceptions:
                             ref_status = b"failed to delete"
                     else:
                         try:
                             if not self.repo.refs.set_if_equals(ref, oldsha, sha):
                                 ref_status = b"stale info"
+                        except FileLocked:
+                            ref_status = b"failed to lock"
                         except all_exceptions:
                             ref_status = b"failed to write"
                 except (KeyError, RefFormatError):
@@ -1621,6 +1626,8 @@ class ReceivePackHandler(PackHandler):
                         try:
                             if not self.repo.refs.remove_if_equals(ref, oldsha):
                                 ref_status = b"stale info"
+                        except FileLocked:
+                            ref_status = b"failed to lock"
                         except all_exceptions:
                             ref_status = b"failed to delete"
                     elif not self._has_object(sha, zero_sha):
@@ -1629,6 +1636,8 @@ class ReceivePackHandler(PackHandler):
                         try:
                             if not self.repo.refs.set_if_equals(ref, oldsha, sha):
                                 ref_status = b"stale info"
+                        except FileLocked:
+                            ref_status = b"failed to lock"
                         except all_exceptions:
                             ref_status = b"failed to write"
                 except (KeyError, RefFormatError):
